@@ -816,7 +816,9 @@ def run(ctx, res):
         run_case(ctx, res, {"op": "advi", "shape": shape, "seed": int(rng.integers(1 << 30))})
     for n in (2, 100, 101, 102, 201):
         run_case(ctx, res, {"op": "muls", "r": 10.0 ** rng.uniform(-4, 4, size=n), "d": float(rng.integers(1, 30))})
-    # sampled part, cheap ops dominate
+    # sampled part, cheap ops dominate (its own time box: the fixed plan above may have used the budget)
+    res.count("fixed_plan_seconds", int(time.time() - (t_end - budget)))
+    t_end = max(t_end, time.time() + (25 if quick else 0.5 * budget))
     i = 0
     while time.time() < t_end:
         c = i % 12
